@@ -368,6 +368,15 @@ func runCheck(prog *Program, prop, tier, verif, only string, loadSecs float64, t
 		"goroutine bodies are not verified (of a go statement only the spawned calls are looked at: the caller's at_call clauses and the callees' call-history ghosts); logging, tracing and metrics calls are dropped; termination is not proved",
 		"an interior pointer (&p.f) is a copy kept in step with its location around every call; two such pointers to the same location are not known to alias",
 		"strings, CIDs, peer IDs, multiaddresses and errors are uninterpreted values with equality")
+	for _, c := range targets {
+		if c.Opts["assume_post"] {
+			var cl []string
+			for _, e := range c.Ensures {
+				cl = append(cl, e.Src)
+			}
+			assumptions = append(assumptions, fmt.Sprintf("ASSUMED postconditions (body checked for call-site assertions and callee preconditions only) of %s: ensures %s", c.Key, strings.Join(cl, " ; ")))
+		}
+	}
 	for _, c := range assumed {
 		var cl []string
 		for _, e := range c.Ensures {
